@@ -245,8 +245,8 @@ func recordPath(l string) string {
 		kind, l = l[:i], l[i+1:]
 	}
 	pkg, name := l, ""
-	if i := strings.LastIndexByte(l, ':'); i >= 0 {
-		pkg, name = l[:i], l[i+1:]
+	if i := strings.IndexByte(l[2:], ':'); i >= 0 { // a package has no colon; a name may
+		pkg, name = l[:2+i], l[3+i:]
 	}
 	if name == "" {
 		name = "BUILD.dawn"
@@ -268,7 +268,19 @@ func liveLabels(v Vars, o buildOpts, before map[string]string) []string {
 					out = append(out, l)
 				}
 			}
-			if len(out) > 0 {
+			// a label whose name contains a colon cannot be read back from the index: the index
+			// is then unusable and the load falls back to a full load
+			usable := len(out) > 0
+			for _, l := range out {
+				body := l
+				if i := strings.Index(l, "//"); i >= 0 {
+					body = l[i+2:]
+				}
+				if strings.Count(body, ":") > 1 {
+					usable = false
+				}
+			}
+			if usable {
 				return out
 			}
 		}
